@@ -119,8 +119,14 @@ impl Resource for Res {
 // Resource checker
 // ---------------------------------------------------------------------------------------------------------------
 
-#[derive(Clone, Copy, PartialEq, Eq, Hash)]
+/// `owner` is a tag for the monitors only: equality and hash ignore it, so that checkers passed by different tasks are
+/// *equal values* for pie (as built-in checkers are) while every call pie makes still identifies the dependency it
+/// belongs to through the very object pie stored.
+#[derive(Clone, Copy)]
 pub struct Chk { pub kind: Kind, pub owner: u32, pub fail_stamp: bool }
+impl PartialEq for Chk { fn eq(&self, o: &Self) -> bool { self.kind == o.kind && self.fail_stamp == o.fail_stamp } }
+impl Eq for Chk {}
+impl std::hash::Hash for Chk { fn hash<H: std::hash::Hasher>(&self, h: &mut H) { self.kind.hash(h); self.fail_stamp.hash(h); } }
 impl Debug for Chk {
   fn fmt(&self, f: &mut fmt::Formatter<'_>) -> fmt::Result {
     write!(f, "Chk({:?},o{}{})", self.kind, self.owner, if self.fail_stamp { ",failstamp" } else { "" })
@@ -199,8 +205,12 @@ impl ResourceChecker<Res> for Chk {
 // Output checker
 // ---------------------------------------------------------------------------------------------------------------
 
-#[derive(Clone, Copy, PartialEq, Eq, Hash)]
+/// As for `Chk`: `owner` and `target` are tags for the monitors; equality and hash look at the kind only.
+#[derive(Clone, Copy)]
 pub struct OChk { pub kind: OKind, pub owner: u32, pub target: u32 }
+impl PartialEq for OChk { fn eq(&self, o: &Self) -> bool { self.kind == o.kind } }
+impl Eq for OChk {}
+impl std::hash::Hash for OChk { fn hash<H: std::hash::Hasher>(&self, h: &mut H) { self.kind.hash(h); } }
 impl Debug for OChk {
   fn fmt(&self, f: &mut fmt::Formatter<'_>) -> fmt::Result { write!(f, "OChk({:?},o{},t{})", self.kind, self.owner, self.target) }
 }
